@@ -144,7 +144,7 @@ def forest_check(prop, tier, seed):
     # 1. L1 model checking: the specification's own invariants
     cfgname = write_cfg(f"gen_{prop}_mc.cfg", FOREST_CFG.format(
         maxnode=3 if quick else 4, names="Names1" if quick else "Names2", texts="TextsXS", maxtext=2, dump="FALSE",
-        invs="Valid RefusalsAreStutters Total RiwIdempotent FrameHolds L2MovesRefine", props="PROPERTY StableIds"))
+        invs="Valid RefusalsAreStutters Total RiwIdempotent FrameHolds L2MovesRefine L2CloneRefines", props="PROPERTY StableIds"))
     r_mc = mc("MCForest.tla", cfgname, workers=12, timeout=3000, tag=prop + "_mc", xmx="16g")
     os.remove(os.path.join(vlib.SPEC, cfgname))
     mcs.append(r_mc)
@@ -258,7 +258,7 @@ def forest_check(prop, tier, seed):
         "distinct_nontrivial": len(classes),
         "rule": "events are public calls executed on the real crate and judged by TLC against L1; distinct = distinct (operation, result, kinds of the node arguments, structural relation between the two node arguments) classes observed",
         "samples": samples, "exhaustive": False,
-        "l1_model": {"maxnode": 3 if quick else 4, "distinct_states": r_mc["distinct"], "invariants": ["Valid", "RefusalsAreStutters", "Total", "RiwIdempotent", "FrameHolds", "L2MovesRefine", "StableIds"]},
+        "l1_model": {"maxnode": 3 if quick else 4, "distinct_states": r_mc["distinct"], "invariants": ["Valid", "RefusalsAreStutters", "Total", "RiwIdempotent", "FrameHolds", "L2MovesRefine", "L2CloneRefines", "StableIds"]},
         "replayed_states": nreplayed, "events": events, "drive_episodes": episodes, "drive_profile": profile or "mixed",
         "rejections_charged_to_other_properties": notes,
     }
@@ -307,7 +307,7 @@ CONSTANTS
   Uris = {{"u1"}}
   MaxText = 2
   Dump = FALSE
-INVARIANTS Valid LawsHold FollowingPrecedingConverse TraverseConsistent AllVariantsExtendPlain LevelOrderIsPermutation StringValueCompositional EqualityLaws EventLaws L2AxesRefine
+INVARIANTS Valid LawsHold FollowingPrecedingConverse TraverseConsistent AllVariantsExtendPlain LevelOrderIsPermutation StringValueCompositional EqualityLaws EventLaws L2AxesRefine {l2eq}
 CONSTRAINT TextBound
 CHECK_DEADLOCK FALSE
 """
@@ -329,7 +329,7 @@ def observer_check(prop, tier, seed):
     d = vlib.workdir(f"obs_{prop}")
     rnd = random.Random(seed)
     # 1. TLC on the specification: laws of the operators on all small forests
-    cfgname = write_cfg(f"gen_{prop}_tree.cfg", TREE_CFG.format(maxnode=3 if quick else 4))
+    cfgname = write_cfg(f"gen_{prop}_tree.cfg", TREE_CFG.format(maxnode=3 if quick else 4, l2eq="L2EqRefines" if (prop == "C13" or not quick) else ""))
     r_mc = mc("MCTree.tla", cfgname, workers=12, timeout=3000, tag=prop + "_tree")
     os.remove(os.path.join(vlib.SPEC, cfgname))
     mcs = [r_mc]
@@ -606,6 +606,11 @@ def parser_check(prop, tier, seed):
     cfgname = write_cfg(f"gen_{prop}_lex.cfg", LEX_CFG.format(maxlen=5 if quick else 6))
     r_mc = mc("MCLex.tla", cfgname, workers=12, timeout=1800, tag=prop + "_lex")
     os.remove(os.path.join(vlib.SPEC, cfgname))
+    # the tree builder of src/parse.rs as transcribed (XotParseL2) against Denote on every token sequence up to a bound,
+    # soundness of what Denote accepts, and parse_fragment = content of the wrapped document
+    cfgname = write_cfg(f"gen_{prop}_parse.cfg", "SPECIFICATION Spec\nCONSTANTS\n  MaxToks = %d\nINVARIANTS Agree AcceptedIsSound FragmentIsWrappedContent\nCHECK_DEADLOCK FALSE\n" % (4 if quick else 5))
+    r_mp = mc("MCParse.tla", cfgname, workers=12, timeout=3000, tag=prop + "_parsemc")
+    os.remove(os.path.join(vlib.SPEC, cfgname))
     jobs, counts = parser_jobs(prop, tier, seed)
     jp = os.path.join(d, "jobs.ndjson")
     with open(jp, "w") as fh:
@@ -641,7 +646,7 @@ def parser_check(prop, tier, seed):
     distinct = len({l[:4000] for l in (json.dumps(j["text"]) + j["mode"] for j in jobs)})
     smp = [{"mode": j["mode"], "dmg": j["dmg"], "text": "".join(map(chr, j["text"]))[:200]} for j in jobs[:3]]
     cov = {
-        "states": r_mc["distinct"], "transitions": r_mc["generated"],
+        "states": r_mc["distinct"] + r_mp["distinct"], "transitions": r_mc["generated"] + r_mp["generated"],
         "traces_validated_against_impl": len(jobs),
         "evaluations": runs, "distinct_nontrivial": distinct,
         "rule": "one event per input text, fed to every parse entry point (and byte encodings); TLC computes what its tokens denote (XotParse) and compares tree, xml:id index, spans and verdict; distinct = distinct (text, mode) inputs",
@@ -697,7 +702,7 @@ def ser_check(prop, tier, seed):
         mcs.append(mc("MCLex.tla", cfgname, workers=12, timeout=1800, tag=prop + "_lex"))
         os.remove(os.path.join(vlib.SPEC, cfgname))
     else:
-        cfgname = write_cfg(f"gen_{prop}_tree.cfg", TREE_CFG.format(maxnode=3 if quick else 4))
+        cfgname = write_cfg(f"gen_{prop}_tree.cfg", TREE_CFG.format(maxnode=3 if quick else 4, l2eq="L2EqRefines" if (prop == "C13" or not quick) else ""))
         mcs.append(mc("MCTree.tla", cfgname, workers=12, timeout=3000, tag=prop + "_tree"))
         os.remove(os.path.join(vlib.SPEC, cfgname))
     jobs = []
@@ -909,7 +914,7 @@ def html_check(prop, tier, seed):
             jobs.append({"st": st, "root": r, "indent": k % 3 == 0, "suppress": sup_opts[k % 3] if k % 3 == 0 else [], "cdata": cd_opts[(k // 3) % 3]})
             counts["enumerated"] += 1
     # the namespace bookkeeping layouts (scopes pushed for an element must be popped before its sibling is written)
-    nsl, r_ns = dump_states("MCHtmlNs.tla", "SPECIFICATION Spec\nCONSTANTS\n  Dump = TRUE\nINVARIANTS ValidInput DumpState\nCHECK_DEADLOCK FALSE\n", "C19_htmlns")
+    nsl, r_ns = dump_states("MCHtmlNs.tla", "SPECIFICATION Spec\nCONSTANTS\n  Dump = TRUE\nINVARIANTS ValidInput L2HtmlRefines L2HtmlTotal DumpState\nCHECK_DEADLOCK FALSE\n", "C19_htmlns")
     rnd.shuffle(nsl)
     for k, st in enumerate(nsl[: (2500 if quick else 12000)]):
         jobs.append({"st": st, "root": 1, "indent": k % 5 == 0, "suppress": [], "cdata": []})
